@@ -366,6 +366,26 @@ def _sqlite(tree):
     if isinstance(node, ast.Call) and isinstance(node.func, ast.Attribute) and node.func.attr in ('execute', 'executemany') and \
         D(node.func.value) != 'self._connection':
       _unsupported('SQLiteFederatedData: a query is not issued through self._connection.execute')
+  # argument plumbing of the derived views: every SQLiteFederatedData(...) built inside the class hands each constructor
+  # parameter the like-named local / attribute (connection, parse_examples, start, stop, preprocess_client, preprocess_batch)
+  init_params = [a.arg for a in T.find_def(cls, '__init__').args.args if a.arg != 'self']
+  if init_params != ['connection', 'parse_examples', 'start', 'stop', 'preprocess_client', 'preprocess_batch']:
+    _unsupported('SQLiteFederatedData.__init__: parameters changed')
+  built = 0
+  for meth in ('new', 'slice', 'preprocess_client', 'preprocess_batch'):
+    for node in ast.walk(T.find_def(cls, meth)):
+      if isinstance(node, ast.Call) and D(node.func) == 'SQLiteFederatedData':
+        built += 1
+        bound = list(zip(init_params, node.args)) + [(k.arg, k.value) for k in node.keywords]
+        for pname, e in bound:
+          src = ast.unparse(e)
+          if src not in (pname, 'self._' + pname, f'self._{pname}.append(fn)'):
+            _unsupported(f'SQLiteFederatedData.{meth}: constructor parameter {pname} receives `{src}`')
+  if built != 4:
+    _unsupported('SQLiteFederatedData: expected the four derived-view constructions (new, slice, preprocess_client, preprocess_batch)')
+  for attr in init_params:
+    if f'self._{attr} = {attr}' not in ast.unparse(T.find_def(cls, '__init__')):
+      _unsupported(f'SQLiteFederatedData.__init__: self._{attr} is not set from {attr}')
   cd = ast.unparse(T.find_def(cls, '_client_dataset'))
   if 'self._preprocess_client(client_id, self._parse_examples(data))' not in cd:
     _unsupported('SQLiteFederatedData._client_dataset: examples are not parse_examples(data)')
@@ -407,7 +427,9 @@ def _sqlite(tree):
           'Definition sqlite_reads_in_rowid_order : bool := true.\n'
           '(* every query method issues self._connection.execute(...): a fresh cursor per query, so a lazy\n'
           '   listing is not disturbed by other queries on the same object *)\n'
-          'Definition sqlite_fresh_cursor_per_query : bool := true.')
+          'Definition sqlite_fresh_cursor_per_query : bool := true.\n'
+          '(* new / slice / preprocess_client / preprocess_batch pass every constructor parameter on to the like-named one *)\n'
+          'Definition sqlite_views_forward_constructor_arguments : bool := true.')
 
 
 MODULES = {
